@@ -15,9 +15,42 @@ func LRUHistories(h *Hist, seed int64, runs int, stats map[string]int) {
 		b := bounds[r.Intn(len(bounds))]
 		c, _ := wlru.New(uint(b[0]), b[1])
 		h.Reset(rec{"mw": b[0], "mn": b[1], "scen": run + 1})
+		var wg sync.WaitGroup
+		if run%10 == 9 {
+			// a duel: one goroutine reads the compound (weight, number) pair in a tight loop while another mutates;
+			// with two goroutines the linearization search stays linear, so the history can be long
+			const duel = 300
+			wg.Add(2)
+			go func(gr *rand.Rand) {
+				defer wg.Done()
+				for i := 0; i < duel; i++ {
+					h.Call(1, rec{"op": "total"})
+					tw, tn := c.Total()
+					h.Ret(1, rec{"w": tw, "n": tn})
+				}
+			}(rand.New(rand.NewSource(r.Int63())))
+			go func(gr *rand.Rand) {
+				defer wg.Done()
+				for i := 0; i < duel; i++ {
+					k, v, w := 1+gr.Intn(3), 1+gr.Intn(2), []int{1, 2, 5}[gr.Intn(3)]
+					if gr.Intn(3) == 0 {
+						h.Call(2, rec{"op": "remove", "k": k})
+						h.Ret(2, rec{"ok": c.Remove(k)})
+					} else {
+						h.Call(2, rec{"op": "add", "k": k, "v": v, "w": w})
+						ev := c.Add(k, v, uint(w))
+						h.Ret(2, rec{"evicted": ev})
+					}
+				}
+			}(rand.New(rand.NewSource(r.Int63())))
+			wg.Wait()
+			stats["lru_histories"]++
+			stats["lru_duels"]++
+			stats["lru_ops"] += 2 * duel
+			continue
+		}
 		G := 2 + r.Intn(3)
 		per := 2 + r.Intn(3)
-		var wg sync.WaitGroup
 		for g := 1; g <= G; g++ {
 			wg.Add(1)
 			go func(g int, gr *rand.Rand) {
